@@ -552,6 +552,63 @@ theorem product_set_independent_of_match_order_partial {s : Mol} {t : Template} 
     obtain ⟨r3, h3, p23⟩ := ih2 r2 h2
     exact ⟨r3, h3, p12.trans p23⟩
 
+/-! ## `BaseReactor.__init__` -/
+
+/-- **which template atoms are removed**: exactly the pattern atoms that are not masked and do not occur in the
+replacement — and none at all with `delete_atoms=False` ("removed … unless masked") -/
+theorem to_delete_spec (t : Template) (n : Nat) :
+    n ∈ toDeleteOf t ↔ t.deleteAtoms = true ∧ (n, false) ∈ t.pattern ∧ n ∉ t.replAtoms.map (·.1) := by
+  unfold toDeleteOf
+  split
+  · next hd =>
+    simp only [List.mem_filter, List.mem_map, hd, true_and]
+    constructor
+    · rintro ⟨⟨⟨k, msk⟩, ⟨hmem, hm⟩, rfl⟩, hnot⟩
+      have : msk = false := by simpa using hm
+      subst this
+      exact ⟨hmem, by simpa using hnot⟩
+    · rintro ⟨hmem, hnot⟩
+      exact ⟨⟨(n, false), ⟨hmem, by simp⟩, rfl⟩, by simpa using hnot⟩
+  · next hd => simp [hd]
+
+/-- a template accepted by the constructor has only any-atoms / element query atoms with at most one hydrogen clause and
+single-order bonds in a query replacement; the error branches exist -/
+theorem init_accepts_only_supported (t : Template) (td : List Nat) (h : templateInit t = .ok td) (hq : t.replIsQuery = true) :
+    td = toDeleteOf t ∧ ∀ n ra, (n, ra) ∈ t.replAtoms → (ra.kind = .any ∨ ra.kind = .query) ∧ ra.hs.length ≤ 1 := by
+  unfold templateInit at h
+  simp only [hq, if_true] at h
+  split at h
+  · simp at h
+  · next hchk =>
+    split at h
+    · simp at h
+    · simp only [Except.ok.injEq] at h
+      refine ⟨h.symm, ?_⟩
+      have : ∀ (l : List (Nat × RAtom)), initCheckAtoms l = .ok () → ∀ n ra, (n, ra) ∈ l →
+          (ra.kind = .any ∨ ra.kind = .query) ∧ ra.hs.length ≤ 1 := by
+        intro l
+        induction l with
+        | nil => intro _ n ra hm; simp at hm
+        | cons e tl ih =>
+          obtain ⟨k, a⟩ := e
+          intro hl n ra hm
+          simp only [initCheckAtoms] at hl
+          split at hl
+          · simp at hl
+          · next hk =>
+            split at hl
+            · simp at hl
+            · next hh =>
+              rcases List.mem_cons.1 hm with heq | hin
+              · cases heq
+                refine ⟨?_, by omega⟩
+                simp only [bne_iff_ne, ne_eq, Bool.and_eq_true, decide_eq_true_eq, not_and, Decidable.not_not] at hk
+                by_cases h1 : a.kind = RKind.any
+                · exact Or.inl h1
+                · exact Or.inr (hk h1)
+              · exact ih hl n ra hin
+      exact this t.replAtoms hchk
+
 /-! ## `fix_mapping_overlap` and the collision remap of `Reactor._single_stage` (unique numbers across molecules)
 
 `orders` / `order` are the iteration orders of the Python sets `intersection` / `collision` (any order). -/
